@@ -406,13 +406,13 @@ fn gen_crowd(rng: &mut Rng, p: &Profile) -> Case {
 /// would); optional one-sided tasks (sync or async, sequential) add sends or receives. Over the whole run the
 /// number of sends equals the number of receives, nobody closes, cancels or times out, main keeps the root
 /// handles: by specification every operation completes with success in every schedule (see DESIGN 4, C16).
-pub fn gen_exec_case(rng: &mut Rng, p: &Profile) -> Case {
+pub fn gen_exec_case(rng: &mut Rng, p: &Profile, big: bool) -> Case {
     let cap = *rng.pick(&[Cap::Bounded(0), Cap::Bounded(0), Cap::Bounded(1), Cap::Bounded(1), Cap::Bounded(2), Cap::Bounded(3), Cap::Unbounded]);
     let class = *rng.pick(&p.classes);
     let fl = |rng: &mut Rng| if rng.chance(1, 2) { Flavour::Async } else { Flavour::Sync };
     let dv = |rng: &mut Rng| if rng.chance(1, 2) { Derive::CloneAs } else { Derive::CloneThenConvert };
-    let n_exec = *rng.pick(&[1usize, 1, 2, 2, 2, 3]);
-    let total = rng.range(2, 6) as usize;
+    let n_exec = if big { *rng.pick(&[1usize, 2, 2, 3, 3, 4]) } else { *rng.pick(&[1usize, 1, 2, 2, 2, 3]) };
+    let total = if big { rng.range(2, 10) as usize } else { rng.range(2, 6) as usize };
     // who sends / receives each message: task indices; executors are 0..n_exec, then up to one one-sided sender task
     // and one one-sided receiver task
     let with_sender_task = rng.chance(1, 3);
